@@ -194,13 +194,25 @@ func flowFamily(name string) *family {
 			// legitimately change what the unchanged rule counts)
 			O, otherThr = R+"-ref", 1e9+float64(other)
 		}
+		otherRule := func() *flow.Rule {
+			return &flow.Rule{ID: "other", Resource: O, TokenCalculateStrategy: flow.Direct, ControlBehavior: flow.Reject, Threshold: otherThr}
+		}
+		if name == "flow-associated" && (c.Variant/4)%2 == 1 && strings.HasPrefix(c.Edit, "other-resource") {
+			// ... or a sibling resource whose own (never binding) rule meters the SAME referenced resource on a window of
+			// its own: adding, replacing or clearing the sibling's rules must not disturb what the unchanged rule counts
+			O = R + "-sib"
+			otherRule = func() *flow.Rule {
+				return &flow.Rule{ID: "other", Resource: O, TokenCalculateStrategy: flow.Direct, ControlBehavior: flow.Reject, Threshold: otherThr,
+					RelationStrategy: flow.AssociatedResource, RefResource: R + "-ref", StatIntervalInMs: 20000}
+			}
+		}
 		if perRes {
 			if name == "flow-associated" && strings.HasPrefix(c.Edit, "other-resource") {
 				if stage == 0 {
 					flow.LoadRulesOfResource(R, rs)
 				}
 				if other > 0 {
-					flow.LoadRulesOfResource(O, []*flow.Rule{{ID: "other", Resource: O, TokenCalculateStrategy: flow.Direct, ControlBehavior: flow.Reject, Threshold: otherThr}})
+					flow.LoadRulesOfResource(O, []*flow.Rule{otherRule()})
 				} else {
 					flow.ClearRulesOfResource(O)
 				}
@@ -210,7 +222,7 @@ func flowFamily(name string) *family {
 			return
 		}
 		if other > 0 {
-			rs = append(rs, &flow.Rule{ID: "other", Resource: O, TokenCalculateStrategy: flow.Direct, ControlBehavior: flow.Reject, Threshold: otherThr})
+			rs = append(rs, otherRule())
 		}
 		flow.LoadRules(rs)
 	}
@@ -357,6 +369,10 @@ func hotFamily(name string) *family {
 			x.SpecificItems = nil
 			if modified {
 				x.Threshold = 2000000
+			}
+			if x.ControlBehavior == hotspot.Throttling {
+				// (a pacing rule is never inert: however large its threshold it may ask for a sleep of one clock tick)
+				x.ControlBehavior = hotspot.Reject
 			}
 			return x
 		}
@@ -506,7 +522,78 @@ func keptStats(i int, rng *rand.Rand) {
 	bad := func(fam, msg string) {
 		run.Violation("C14/modified-rule-lost-statistics:"+fam, fmt.Sprintf("[%s, %s path] %s", fam, path, msg), map[string]interface{}{"family": fam, "path": path, "case": i})
 	}
-	switch i % 4 {
+	switch i % 6 {
+	case 5: // three breakers on one resource: A unchanged; B and C have the same statistic parameters and are both modified
+		// (thresholds only) after their windows have diverged (C tripped on 3 errors and was closed again by its probe,
+		// which cleared C's own counters; B still holds the 3 errors): each keeps ITS OWN statistic
+		mk := func(tb, tc float64) []*cb.Rule {
+			return []*cb.Rule{
+				{Id: "a", Resource: R, Strategy: cb.SlowRequestRatio, RetryTimeoutMs: 1000, MinRequestAmount: 1000, StatIntervalMs: 10000, MaxAllowedRtMs: 10000, Threshold: 1},
+				{Id: "b", Resource: R, Strategy: cb.ErrorCount, RetryTimeoutMs: 5000, MinRequestAmount: 1, StatIntervalMs: 10000, Threshold: tb},
+				{Id: "c", Resource: R, Strategy: cb.ErrorCount, RetryTimeoutMs: 1000, MinRequestAmount: 1, StatIntervalMs: 10000, Threshold: tc}}
+		}
+		req := func(fail bool) bool {
+			e, b := sentinel.Entry(R)
+			if b != nil {
+				return false
+			}
+			if fail {
+				sentinel.TraceError(e, errors.New("x"))
+			}
+			e.Exit()
+			return true
+		}
+		cb.LoadRules(mk(10, 3))
+		ok := req(true) && req(true) && req(true) && !req(false)
+		clk.AddMs(1100)
+		ok = ok && req(false)
+		if path == "whole-set" {
+			cb.LoadRules(mk(4, 5))
+		} else {
+			cb.LoadRulesOfResource(R, mk(4, 5))
+		}
+		clk.AddMs(100)
+		ok = ok && req(true)
+		if ok && req(false) {
+			bad("breaker-siblings-with-equal-statistic-parameters", "two error-count breakers with equal statistic parameters: C (threshold 3) tripped on 3 errors and was closed by its probe, B (threshold 10) kept counting; thresholds then changed to B=4, C=5: the 4th error in the window must open B (3 kept + 1), but the next request was admitted: B did not keep its own 3 errors")
+		}
+		if !ok {
+			run.Count("kept_statistics_sibling_setup_failed", 1)
+		}
+		cb.ClearRules()
+	case 4: // hot-parameter throttling rule, one pass per 10 s per value: after a pass for "v" the rule is reloaded with
+		// another burst count (meaningless for throttling: the same rule) or a doubled threshold (same statistic
+		// parameters): the last pass time of "v" is kept, a request 1 s later is still too early
+		variant := vk.PickS(rng, "burst-count", "threshold")
+		mk := func(mod bool) []*hotspot.Rule {
+			r := &hotspot.Rule{ID: "m", Resource: R, MetricType: hotspot.QPS, ControlBehavior: hotspot.Throttling, ParamIndex: 0, Threshold: 1, DurationInSec: 10, BurstCount: 1}
+			if mod && variant == "burst-count" {
+				r.BurstCount = 4
+			}
+			if mod && variant == "threshold" {
+				r.Threshold = 2
+			}
+			return []*hotspot.Rule{r}
+		}
+		hotspot.LoadRules(mk(false))
+		first := 0
+		if e, b := sentinel.Entry(R, sentinel.WithArgs("v")); b == nil {
+			e.Exit()
+			first++
+		}
+		clk.AddMs(1000)
+		if path == "whole-set" {
+			hotspot.LoadRules(mk(true))
+		} else {
+			hotspot.LoadRulesOfResource(R, mk(true))
+		}
+		if e, b := sentinel.Entry(R, sentinel.WithArgs("v")); b == nil {
+			e.Exit()
+			if first == 1 {
+				bad("hotspot-throttling-"+variant, fmt.Sprintf("one pass per 10 s per value (no queueing); value \"v\" passed, the rule was reloaded 1 s later with only its %s changed (same statistic parameters), and \"v\" passed again at once: its last pass time was lost", variant))
+			}
+		}
+		hotspot.ClearRules()
 	case 0: // flow reject rule with a standalone 3000 ms window: threshold 5 -> 8 after k admissions
 		k := 1 + rng.Intn(5)
 		mk := func(t float64) []*flow.Rule {
